@@ -163,10 +163,14 @@ def main(tier, replay=None):
         spec_out = c.run_sharded([driver, "<"], spec_in, os.path.join(rd, "spec.out"), argv_suffix=["spec"], shards=1)
         return read_keyed(spec_out)
 
+    def verdict_of(spec, key):
+        f = spec.get(key, "").split(" ")
+        return f[2] if len(f) > 2 and f[2] else "unreadable-output"
+
     spec = monitor(sorted(expected))
     reruns = 0
     for key in sorted(expected):
-        if key.startswith("E ") and (key not in impl or spec.get(key, "x x bad").split(" ")[2] not in ("ok", "probe-failed-one-reclaimable-slot")):
+        if key.startswith("E ") and (key not in impl or verdict_of(spec, key) not in ("ok", "probe-failed-one-reclaimable-slot")):
             # a real-clock case: believe a failure only if it repeats
             again = rerun(key)
             reruns += 1
@@ -178,7 +182,7 @@ def main(tier, replay=None):
         if key not in impl:
             mon_viol.append((key, ["no-output"]))
             continue
-        v = spec.get(key, key + " missing").split(" ")[2]
+        v = verdict_of(spec, key)
         if v != "ok":
             mon_viol.append((key, v.split(",")))
     shown = {}
@@ -201,6 +205,8 @@ def main(tier, replay=None):
                 "probe-failed-one-reclaimable-slot": "a legitimate handshake does not succeed with exactly one reclaimable session slot",
                 "no-output": "the implementation produced no result line (crash or hang of the harness process)",
                 "no-result": "the implementation run ended without a snapshot (panic or hang)",
+                "unreadable-output": "the implementation's output line for this case cannot be read (panic, hang or truncated output)",
+                "dropped-exchange-never-swept": "after the dropped-exchange sweeper ran until it found nothing to do, an exchange slot is still in the Dropped state: the slot, and with it its session (a session with an exchange is never evicted), is lost for good",
             }.get(name, name)
             c.violation(name, "\n".join([
                 "property C20 fails on the implementation: " + what,
@@ -226,7 +232,7 @@ def main(tier, replay=None):
             mt = cmp_part(model.get(key, "")).split(" ")[2:]
             j = next((k for k in range(min(len(it), len(mt))) if it[k] != mt[k]), min(len(it), len(mt)))
             cl = case_by_key[key]
-            ops = cl.split(" ")[3].split(",") if cl[0] in "DVW" and len(cl.split(" ")) > 3 else []
+            ops = (cl.split(" ")[3].split(",") + ["(final sweeps)"]) if cl[0] in "DVW" and len(cl.split(" ")) > 3 else []
             out += ["case : " + cl[:3000],
                     "first difference at step %d (op %s)" % (j, ops[j] if j < len(ops) else "-"),
                     "impl : " + (it[j][:400] if j < len(it) else impl.get(key, "")[-300:]),
@@ -245,11 +251,11 @@ def main(tier, replay=None):
         kinds[f[0] + "/" + f[2]] = kinds.get(f[0] + "/" + f[2], 0) + 1
         ml = model.get(key, "")
         if f[0] == "D":
-            ops_total += len(f[3].split(","))
+            ops_total += len(f[3].split(",")) if len(f) > 3 else 0
             if "nospace" in ml or "ev=0" in ml or "R];" in ml or "A];" in ml or "noexch" in ml:
                 nt.add(cl.split(" ", 2)[2])
         elif f[0] in ("V", "W"):
-            ops_total += len(f[3].split(","))
+            ops_total += len(f[3].split(",")) if len(f) > 3 else 0
             if "nf>" in ml or "ok>" in ml:
                 nt.add(cl.split(" ", 2)[2])
         else:
